@@ -233,7 +233,13 @@ def run_scheme(ci, rel, cls, cfg):
                 val = sc_.get(pick) or it.lookup_global(f[0], pick)
                 if isinstance(val, A.ClassRef):
                     kwargs['integrator_cls'] = val
+    # the documented extra_steppers argument belongs to the caller (one dict is handed to several schemes / to a scheme configured again): it must come back as given
+    extra = None
+    if 'extra_steppers' in params:
+        extra = {'<extra>': A.Obj('mock', name='extra stepper')}
+        kwargs['extra_steppers'] = extra
     it.call_function(A.FuncRef(f[0], f[2], self_obj=obj, cls=f[1]), [], kwargs, f[2])
+    res['extra_mutated'] = sorted(str(k_) for k_ in extra) if extra is not None and sorted(extra) != ['<extra>'] else None
     res['stage_gap'] = None
     for inst in it.insts[n0:]:
         names = [c.name for r, c in it.mro(inst.cls)]
@@ -359,6 +365,8 @@ def main(chk):
     c20 = importlib.util.module_from_spec(spec20)
     spec20.loader.exec_module(c20)
     c20.rule_stepper_check_scope(chk)
+    # the d_/s_ names an equation is validated against (and bound with) are computed from that equation, not remembered per class name (rule shared with C20)
+    c20.rule_no_shortcut(chk)
     chk.floor('Scheme subclasses', len(schemes), 17)
     total_cfg = 0
     total_sites = 0
@@ -399,6 +407,11 @@ def main(chk):
                         if k not in missing:
                             missing[k] = [describe(cfg), node, r2, 0, '']
                         missing[k][3] += 1
+                if res.get('extra_mutated'):
+                    f_ = res['it'].find_method(A.ClassRef(rel, cls), 'configure_solver')
+                    ctor.setdefault((cls.name, 'configure_solver writes its own steppers into the caller\'s extra_steppers dict (it holds %s afterwards): the next scheme configured with the same '
+                                     'dict - or this one after configure() changed the formulation - keeps the stale stepper, whose properties its arrays do not have' % res['extra_mutated']),
+                                    (describe(cfg), f_[2], f_[0]))
                 if res.get('stage_gap'):
                     inst_, gap, have = res['stage_gap']
                     ctor.setdefault((inst_.cls.node.name, 'one_timestep of %s calls %s but the steppers it is given implement only %s: the generated integrator has no such stage and the first '
